@@ -46,6 +46,11 @@ class Result:
     def tag(self, *classes):
         self.classes.extend(classes)
 
+    def count(self, name, n):
+        "add n to a class counter (for checks whose cases contain many evaluations)"
+        if n:
+            self.classes.append((name, n))
+
 
 def load_prop(pid):
     return importlib.import_module('vf.props.%s' % pid)
@@ -98,7 +103,10 @@ class Collector:
             cj = model.canon(case)
             self.nontrivial.add(model.digest(cj))
         for c in res.classes:
-            self.classes[c] = self.classes.get(c, 0) + 1
+            k = 1
+            if isinstance(c, tuple):
+                c, k = c
+            self.classes[c] = self.classes.get(c, 0) + k
             if c not in self.samples:
                 self.samples[c] = case
         for v in res.violations:
@@ -124,6 +132,8 @@ def shard_worker(args):
         import hypothesis
         from hypothesis import given, settings, HealthCheck, Phase
         prop = load_prop(pid)
+        if hasattr(prop, 'run_shard'):      # stateful checks drive their own state machine
+            return prop.run_shard(tier, seed, shard, n)
         col = Collector()
         strat = prop.strategy(tier)
 
